@@ -99,10 +99,19 @@ def check_wsvg(idxs, ai, si, fkind, tmp, acc):
         kw['attributes'] = attributes
     if svgat is not None:
         kw['svg_attributes'] = dict(svgat)
+    # the per-path style lists given together with `attributes` ("attributes ... will override any other
+    # conflicting settings"): on every second case
+    styled = (sum(idxs) + ai + si) % 2 == 1
+    if styled:
+        kw['colors'] = ['#abcdef'] * len(paths)
+        kw['stroke_widths'] = [3] * len(paths)
+    case_extra = {'style_lists': True} if styled else {}
     with warnings.catch_warnings():
         warnings.simplefilter('ignore')
         r = outcome(lambda: wsvg(paths, filename=fn, **kw))
     sig = {'writer': 'wsvg', 'attributes': ai != 0, 'svg_attributes': si != 0}
+    if styled:
+        sig['style_lists_too'] = True
     acc.case(case, cls='wsvg/attrs%d/svg%d/%s' % (ai, si, fkind), nontrivial=True)
     acc.traces += 1
     if r[0] != 'ok' or not os.path.exists(fn):
@@ -164,6 +173,8 @@ DOC_OPS = [
     ['add_path', 'Path', 0, 0, None], ['add_path', 'Path', 2, 1, None], ['add_path', 'segment', 3, 0, None],
     ['add_path', 'dstring', 4, 2, None], ['add_path', 'Path', 1, 2, ['ga']], ['add_path', 'Path', 4, 0, ['ga', 'gb']],
     ['add_path', 'Path', 3, 3, None], ['add_path', 'Path', 0, 4, None], ['add_path', 'Path', 2, 5, None], ['add_path', 'Path', 1, 6, None],
+    # a top-level group named like a group that (possibly) already exists deeper down
+    ['add_path', 'Path', 3, 1, ['gb']],
     ['add_group', ['gc']], ['save'], ['save_reload'],
     # a path object obtained FROM the document, edited in place, then added again (what is stored must be its
     # current geometry, not what the element it came from says)
@@ -247,6 +258,24 @@ def inspect_doc(hist, tmp, acc):
         if len(got) != len(paths) or not all(any(same_path(g, p) for g in got) for p in paths):
             acc.violation('added_paths_not_visible_to_own_queries', dict(sig, reloaded=any(op[0] == 'save_reload' for op in hist)),
                           case, observed=[p.d() for p in got], expected=[p.d() for p in paths])
+    # every added path sits in exactly the group chain it was added to (direct children all the way down)
+    SVGNS = '{http://www.w3.org/2000/svg}'
+    for (p_, at_, grp_) in model:
+        node = doc.tree.getroot()
+        ok_place = True
+        for name in (grp_ or []):
+            nxt_ = [g for g in list(node) if g.tag in (SVGNS + 'g', 'g') and g.get('id') == name]
+            if len(nxt_) != 1:
+                ok_place = False
+                break
+            node = nxt_[0]
+        if ok_place:
+            here = [e for e in list(node) if e.tag in (SVGNS + 'path', 'path')]
+            ok_place = any(same_path(parse_path(e.get('d', '')), p_) for e in here if e.get('d'))
+        if not ok_place:
+            acc.violation('path_not_in_the_group_it_was_added_to', dict(sig, group_depth=len(grp_ or [])), case,
+                          observed='no <path> with this geometry as a direct child of %r' % (grp_,), expected=p_.d())
+            break
     # after a save with nothing added since: all readers agree with the model
     if fn is not None and hist and hist[-1][0] in ('save', 'save_reload'):
         attributes = [m[1] or {} for m in model]
